@@ -30,7 +30,7 @@ def tsOfTok (unit : Int) (tok : String) (shift : Int := 0) : Option Int :=
   else if unit == 0 then none
   -- `h…` / `q…`: a float64 with fractional part .5 / .75 — the integer part counts (truncation)
   else if tok.startsWith "f" || tok.startsWith "s" || tok.startsWith "h" || tok.startsWith "q" then parseInt (tok.drop 1).toString
-  else parseInt tok).map (· + shift)
+  else parseInt tok).map (fun v => (v + shift) * (if unit > 1 then unit else 1))
 
 def emLine (e : Emission) : List String :=
   (if e.kind == .late then "lemit" else "emit") :: toString e.start :: toString e.stop :: e.rows.map (fun r => toString r.id)
